@@ -1,0 +1,108 @@
+//go:build verif
+
+package analyzer
+
+// Contracts for the govc verification-condition generator (/verif/DESIGN.md section 3.4).
+// This file is compiled only with the build tag "verif"; every contract line starts with //@.
+
+//@ specdef isReal(ps []ast.Posting, j int) bool := ps[j].Virtual == 0 || ps[j].Virtual == 1
+//@ specdef cbase(ps []ast.Posting, j int) real := ite(ps[j].Cost.IsTotal, ps[j].Cost.Amount.Quantity, dmul(ps[j].Cost.Amount.Quantity, abs(ps[j].Amount.Quantity)))
+//@ specdef contrib(ps []ast.Posting, j int, c string) real := ite(ps[j].Amount == nil, 0.0, ite(ps[j].Cost != nil, ite(ps[j].Cost.Amount.Commodity.Symbol == c, ite(ps[j].Amount.Quantity < 0.0, 0.0 - cbase(ps, j), cbase(ps, j)), 0.0), ite(ps[j].Amount.Commodity.Symbol == c, ps[j].Amount.Quantity, 0.0)))
+//@ specdef resid(ps []ast.Posting, i int, c string) real := ite(i <= 0, 0.0, resid(ps, i - 1, c) + contrib(ps, i - 1, c))
+//@ specdef ninf(ps []ast.Posting, i int) int := ite(i <= 0, 0, ninf(ps, i - 1) + ite(ps[i - 1].Amount == nil, 1, 0))
+//@ specdef rresid(ps []ast.Posting, i int, c string) real := ite(i <= 0, 0.0, rresid(ps, i - 1, c) + ite(isReal(ps, i - 1), contrib(ps, i - 1, c), 0.0))
+//@ specdef rninf(ps []ast.Posting, i int) int := ite(i <= 0, 0, rninf(ps, i - 1) + ite(isReal(ps, i - 1) && ps[i - 1].Amount == nil, 1, 0))
+
+//@ lemma resid_ext(a []ast.Posting, b []ast.Posting, i int, c string) induct i := {resid(a, i, c); resid(b, i, c)} (forall j int :: 0 <= j && j < i ==> a[j] == b[j]) ==> resid(a, i, c) == resid(b, i, c)
+//@ lemma ninf_ext(a []ast.Posting, b []ast.Posting, i int) induct i := {ninf(a, i); ninf(b, i)} (forall j int :: 0 <= j && j < i ==> a[j] == b[j]) ==> ninf(a, i) == ninf(b, i)
+//@ lemma ninf_nonneg(a []ast.Posting, i int) induct i := {ninf(a, i)} ninf(a, i) >= 0
+//@ lemma rninf_nonneg(a []ast.Posting, i int) induct i := {rninf(a, i)} rninf(a, i) >= 0
+
+//@ func sumByCommodity
+//@   props C02 C06
+//@   ensures [sum] forall c string :: result[c] == resid(postings, len(postings), c)
+//@   ensures [dom] forall c string :: !has(result, c) ==> resid(postings, len(postings), c) == 0.0
+//@   ensures [fresh] fresh(result)
+//@   loop 1 invariant 0 - 1 <= rangeindex && rangeindex <= len(postings) - 1
+//@   loop 1 invariant forall c string :: balances[c] == resid(postings, rangeindex + 1, c)
+//@   loop 1 invariant forall c string :: !has(balances, c) ==> resid(postings, rangeindex + 1, c) == 0.0
+//@   loop 1 decreases len(postings) - rangeindex
+
+//@ func countInferredPostings
+//@   props C02 C06
+//@   ensures [count] count == ninf(postings, len(postings))
+//@   ensures [idx] count == 0 ==> lastIdx == 0 - 1
+//@   loop 1 invariant 0 - 1 <= rangeindex && rangeindex <= len(postings) - 1
+//@   loop 1 invariant count == ninf(postings, rangeindex + 1) && (count == 0 ==> lastIdx == 0 - 1)
+//@   loop 1 decreases len(postings) - rangeindex
+
+//@ func filterRealPostings
+//@   props C02 C06
+//@   ensures [resid] forall c string :: resid(result, len(result), c) == rresid(postings, len(postings), c)
+//@   ensures [ninf] ninf(result, len(result)) == rninf(postings, len(postings))
+//@   loop 1 invariant 0 - 1 <= rangeindex && rangeindex <= len(postings) - 1 && len(real) >= 0
+//@   loop 1 invariant forall c string :: resid(real, len(real), c) == rresid(postings, rangeindex + 1, c)
+//@   loop 1 invariant ninf(real, len(real)) == rninf(postings, rangeindex + 1)
+//@   loop 1 decreases len(postings) - rangeindex
+
+//@ func CheckBalance
+//@   props C02 C06
+//@   requires tx != nil
+//@   ensures [multi] rninf(tx.Postings, len(tx.Postings)) > 1 ==> !result.Balanced && result.InferredIdx == 0 - 1 && (forall c string :: !has(result.Differences, c))
+//@   ensures [one] rninf(tx.Postings, len(tx.Postings)) == 1 ==> result.Balanced
+//@   ensures [zero_bal1] rninf(tx.Postings, len(tx.Postings)) == 0 && result.Balanced ==> (forall c string :: rresid(tx.Postings, len(tx.Postings), c) == 0.0)
+//@   ensures [zero_bal2] rninf(tx.Postings, len(tx.Postings)) == 0 && !result.Balanced ==> (exists c string :: rresid(tx.Postings, len(tx.Postings), c) != 0.0)
+//@   ensures [zero_diff] rninf(tx.Postings, len(tx.Postings)) == 0 ==> (forall c string :: has(result.Differences, c) <==> rresid(tx.Postings, len(tx.Postings), c) != 0.0)
+//@   ensures [zero_abs] rninf(tx.Postings, len(tx.Postings)) == 0 ==> (forall c string :: has(result.Differences, c) ==> result.Differences[c] == abs(rresid(tx.Postings, len(tx.Postings), c)))
+//@   loop 1 invariant result != nil && fresh(result) && fresh(result.Differences) && fresh(balances) && balances != result.Differences && rninf(tx.Postings, len(tx.Postings)) == 0
+//@   loop 1 invariant forall c string :: balances[c] == rresid(tx.Postings, len(tx.Postings), c)
+//@   loop 1 invariant forall c string :: !has(balances, c) ==> rresid(tx.Postings, len(tx.Postings), c) == 0.0
+//@   loop 1 invariant forall c string :: iterseen1[c] ==> has(balances, c)
+//@   loop 1 invariant forall c string :: has(result.Differences, c) <==> (iterseen1[c] && balances[c] != 0.0)
+//@   loop 1 invariant forall c string :: has(result.Differences, c) ==> result.Differences[c] == abs(balances[c])
+//@   loop 1 invariant !result.Balanced ==> (exists c string :: iterseen1[c] && balances[c] != 0.0)
+//@   loop 1 invariant forall c string :: iterseen1[c] && balances[c] != 0.0 ==> !result.Balanced
+
+//@ specdef pcontrib(ps []ast.Posting, k int, a string, c string) real := ite(ps[k].Amount != nil && ps[k].Account.Name == a && ps[k].Amount.Commodity.Symbol == c, ps[k].Amount.Quantity, 0.0)
+//@ specdef psum(ps []ast.Posting, j int, a string, c string) real := ite(j <= 0, 0.0, psum(ps, j - 1, a, c) + pcontrib(ps, j - 1, a, c))
+//@ specdef tsum(txs []ast.Transaction, i int, a string, c string) real := ite(i <= 0, 0.0, tsum(txs, i - 1, a, c) + psum(txs[i - 1].Postings, len(txs[i - 1].Postings), a, c))
+
+//@ pred Own(b) := b != nil && fresh(b) && allocated(b) && (forall a string :: has(b, a) ==> b[a] != nil && fresh(b[a]) && allocated(b[a]) && b[a] != b) && (forall a1 string, a2 string :: has(b, a1) && has(b, a2) && a1 != a2 ==> b[a1] != b[a2])
+
+//@ func CalculateAccountBalancesFromTransactions
+//@   props C20
+//@   ensures [sum] forall a string, c string :: result[a][c] == tsum(transactions, len(transactions), a, c)
+//@   ensures [fresh] fresh(result)
+//@   loop 1 invariant 0 - 1 <= rangeindex && rangeindex <= len(transactions) - 1 && Own(balances)
+//@   loop 1 invariant forall a string, c string :: balances[a][c] == tsum(transactions, rangeindex + 1, a, c)
+//@   loop 1 decreases len(transactions) - rangeindex
+//@   loop 2 invariant 0 <= i && i < len(transactions) && 0 - 1 <= rangeindex && rangeindex <= len(transactions[i].Postings) - 1 && Own(balances)
+//@   loop 2 invariant forall a string, c string :: balances[a][c] == tsum(transactions, i, a, c) + psum(transactions[i].Postings, rangeindex + 1, a, c)
+//@   loop 2 decreases len(transactions[i].Postings) - rangeindex
+
+//@ pred topOf(n) := ite(sindex(tolower(n), ":") == 0 - 1, tolower(n), substr(tolower(n), 0, sindex(tolower(n), ":")))
+
+//@ func isAccountDeclared
+//@   props C18
+//@   requires declared != nil
+//@   ensures [exact_true] result ==> predefinedAccountTypes[topOf(accountName)] || declared[accountName] || (exists d string :: has(declared, d) && hasprefix(accountName, concat(d, ":")))
+//@   ensures [exact_false] !result ==> !predefinedAccountTypes[topOf(accountName)] && !declared[accountName] && (forall d string :: has(declared, d) ==> !hasprefix(accountName, concat(d, ":")))
+//@   loop 1 invariant !predefinedAccountTypes[topOf(accountName)] && !declared[accountName]
+//@   loop 1 invariant forall d string :: iterseen1[d] ==> has(declared, d) && !hasprefix(accountName, concat(d, ":"))
+
+//@ func (*Analyzer).createBalanceDiagnostic
+//@   props C02
+//@   requires br != nil && tx != nil
+//@   ensures [total] true
+
+//@ func collectDeclaredAccountsFromResolved
+//@   props C18
+//@   requires resolved != nil
+//@   ensures [total] true
+
+//@ func checkUndeclaredCommodities
+//@   props C18
+//@   requires tx != nil && declared != nil
+//@   ensures [only_undeclared] forall i int :: 0 <= i && i < len(result) ==> result[i].Code == "UNDECLARED_COMMODITY" && result[i].Severity == 1
+//@   loop 1 invariant 0 - 1 <= rangeindex && seen != nil && fresh(seen) && (forall i int :: 0 <= i && i < len(diags) ==> diags[i].Code == "UNDECLARED_COMMODITY" && diags[i].Severity == 1)
+//@   loop 1 decreases len(tx.Postings) - rangeindex
